@@ -1,14 +1,19 @@
 #!/bin/sh
-# run every registered check of MANIFEST.json (tier $1, default quick) and print one status line each
+# run every registered check of MANIFEST.json (tier $1, default quick; further arguments: only these property ids)
+# and print one status line each
 tier=${1:-quick}
 # run in the tree this script belongs to (a snapshot worktree when started through vp run), not necessarily /verif
 cd "$(dirname "$0")/.."
-/venv/bin/python - "$tier" <<'PY'
+shift 2>/dev/null
+/venv/bin/python - "$tier" "$@" <<'PY'
 import json, os, subprocess, sys, time
 tier = sys.argv[1]
+only = sys.argv[2:]
 man = json.load(open("MANIFEST.json"))
 bad = 0
 for c in man["checks"]:
+    if only and c["property_id"] not in only:
+        continue
     cmd = c["quick_cmd"] if tier == "quick" else c["thorough_cmd"]
     cmd = cmd.replace("cd /verif", "cd " + os.getcwd())
     t0 = time.time()
